@@ -16,7 +16,8 @@ Definition cmd_tables_ok : bool :=
   undo_ok gen.T04.HM_ADD_HANDLERS DuplicateHostmask && gen.T04.HM_ADD_GUARDED &&
   undo_ok gen.T04.IDENTIFY_HANDLERS DuplicateHostmask && undo_ok gen.T04.UNIDENTIFY_HANDLERS DuplicateHostmask &&
   undo_ok gen.T04.CHANGENAME_HANDLERS DuplicateHostmask && undo_ok gen.T04.REMOVE_HANDLERS DuplicateHostmask &&
-  undo_ok gen.T04.REGISTER_HANDLERS DuplicateHostmask && undo_ok gen.T04.REGISTER_HANDLERS ValueError.
+  undo_ok gen.T04.REGISTER_HANDLERS DuplicateHostmask && undo_ok gen.T04.REGISTER_HANDLERS ValueError &&
+  undo_ok gen.T04.SECURE_HANDLERS DuplicateHostmask && negb gen.T04.SECURE_GUARD_USEAUTH.
 
 Lemma T04_ok : cmd_tables_ok = true.
 Proof. vm_compute. reflexivity. Qed.
@@ -41,6 +42,8 @@ Lemma T04_register : first_handler gen.T04.REGISTER_HANDLERS DuplicateHostmask =
 Proof. table_fact. Qed.
 Lemma T04_register_v : first_handler gen.T04.REGISTER_HANDLERS ValueError = Some true.
 Proof. table_fact. Qed.
+Lemma T04_secure : first_handler gen.T04.SECURE_HANDLERS DuplicateHostmask = Some true.
+Proof. table_fact. Qed.
 
 Section SameDb.
 Variables (t now : Z).
@@ -64,8 +67,9 @@ Qed.
 
 Lemma same_user_le u u' : same_user u u' -> le_user u' u.
 Proof.
-  intros [_ [Hm [_ [Hs _]]]] h. unfold recog_ever, mask_match. rewrite Hm. intro H.
+  intros [_ [Hm [Hsec [Hs _]]]] h. unfold recog_ever, mask_match. rewrite Hm, Hsec. intro H.
   apply orb_true_iff in H as [H|H]; [|rewrite H; apply orb_true_r].
+  apply andb_true_iff in H as [H Hn]. rewrite Hn, andb_true_r.
   apply existsb_exists in H as [e [Hin He]]. apply orb_true_iff. left. apply existsb_exists. exists e. auto.
 Qed.
 
@@ -625,40 +629,45 @@ Qed.
 Lemma cmd_secure_R o s P value :
   Inv s -> ids_bounded s ->
   let out := cmd_secure t now o s P value in
-  r_ok out = false -> r_set out = false -> r_amb out = false -> same_db (s_users s) (s_users (r_st out)).
+  r_ok out = false -> r_amb out = false -> same_db (s_users s) (s_users (r_st out)).
 Proof.
   intros HI Hb. unfold cmd_secure.
   destruct (lookup t now s P) as [[s1 r1] a0] eqn:E1.
   pose proof (lookup_R _ _ _ _ _ HI Hb E1) as [I1 [B1 D1]].
-  destruct r1 as [uid|e]; [|cbn; intros _ _ Ea; apply D1; exact Ea].
-  rewrite uget_nget. destruct (nget uid (s_users s1)) as [u|] eqn:Eu; [|cbn; intros _ _ Ea; apply D1; exact Ea].
-  destruct (negb (o_pw o)); [cbn; intros _ _ Ea; apply D1; exact Ea|].
+  destruct r1 as [uid|e]; [|cbn; intros _ Ea; apply D1; exact Ea].
+  rewrite uget_nget. destruct (nget uid (s_users s1)) as [u|] eqn:Eu; [|cbn; intros _ Ea; apply D1; exact Ea].
+  destruct (negb (o_pw o)); [cbn; intros _ Ea; apply D1; exact Ea|].
   pose proof (checkHostmask_same false u P gen.T04.SECURE_GUARD_USEAUTH) as Hs.
   destruct (checkHostmask false t now u P gen.T04.SECURE_GUARD_USEAUTH) as [u1 x]. cbn [fst] in Hs.
-  pose proof (store_R s1 uid u u1 I1 B1 Eu Hs) as [_ [_ D2]].
-  destruct (truthy x).
-  - destruct (setUser t now _ uid _) as [s3 r3]. destruct r3; cbn; intros; discriminate.
-  - cbn. intros _ _ Ea. eapply same_db_trans; [apply D1; exact Ea|apply D2; reflexivity].
+  pose proof (store_R s1 uid u u1 I1 B1 Eu Hs) as [I2 [B2 D2]]. cbv zeta.
+  destruct (truthy x); [|cbn; intros _ Ea; eapply same_db_trans; [apply D1; exact Ea|apply D2; reflexivity]].
+  set (v := match value with Some b => b | None => negb (u_secure u) end).
+  pose proof (refused_edit (store s1 uid u1) uid u1 (set_secure u1 v)) as Href.
+  destruct (setUser t now (store (store s1 uid u1) uid (set_secure u1 v)) uid (set_secure u1 v)) as [s3 r3].
+  destruct r3 as [y|e3]; [cbn; intros; discriminate|].
+  assert (Hu1 : nget uid (s_users (store s1 uid u1)) = Some u1).
+  { unfold store. cbn [with_users s_users]. rewrite uset_nset. apply nget_nset_same. }
+  destruct (Href s3 e3 (i_cache _ I2) Hu1 eq_refl) as [Ee [Hu3 Hdb]]. subst e3.
+  rewrite T04_secure, uget_nget, Hu3. cbn [r_ok r_amb r_st]. intros _ Ea.
+  assert (Eq : set_secure (set_secure u1 v) (u_secure u1) = u1) by (destruct u1; reflexivity). rewrite Eq.
+  eapply same_db_trans; [apply D1; exact Ea|]. eapply same_db_trans; [apply D2; reflexivity|exact Hdb].
 Qed.
 
 (* ---- the theorem ---- *)
 (* the domain left: no lookup of the command ran the Multiple-matches branch
-   (whose removal of the offending hostmasks is the lookup's own doing); and for
-   user set secure, the refusal did not come out of users.setUser (that command
-   has no handler that puts the flag back: finding F26) *)
-Definition no_trace_dom (c : cmd) (out : outcome) : Prop :=
-  r_amb out = false /\ match c with CSecure _ => r_set out = false | _ => True end.
+   (whose removal of the offending hostmasks is the lookup's own doing) *)
+Definition no_trace_dom (out : outcome) : Prop := r_amb out = false.
 
 Theorem refused_no_trace o s P c :
   Inv s -> ids_bounded s ->
   let out := run_cmd t now o s P c in
-  r_ok out = false -> no_trace_dom c out ->
+  r_ok out = false -> no_trace_dom out ->
   same_db (s_users s) (s_users (r_st out)).
 Proof.
   intros HI Hb. unfold run_cmd, no_trace_dom.
   set (body := cmd_body t now o s P c).
   destruct (lookup t now (r_st body) P) as [[s' r'] a'] eqn:EL.
-  cbn [r_ok r_amb r_set r_st]. intros Hok [Hamb Hset].
+  cbn [r_ok r_amb r_set r_st]. intros Hok Hamb.
   apply orb_false_iff in Hamb as [Hamb Ha']. subst a'.
   eapply same_db_trans; [|eapply lookup_same; exact EL].
   unfold body in *. clear body EL. destruct c as [name mask|name mask|name| |name newname|name|value]; cbn [cmd_body] in *.
@@ -689,7 +698,7 @@ Proof.
   intros HI Hb Hu u2 Hok Hdom. pose proof HI as [Hnd HC HL Hcoh].
   assert (Hauth : u_auth u2 = u_auth u1) by reflexivity.
   assert (Hrec : forall h, mask_match u2 h = false -> recog_ever u2 h = recog_ever u1 h -> True) by auto.
-  assert (Hever : forall h, recog_ever u2 h = existsb (fun e => seq_eqb h (snd e)) (u_auth u1) || mask_match u2 h) by reflexivity.
+  assert (Hever : forall h, recog_ever u2 h = (existsb (fun e => seq_eqb h (snd e)) (u_auth u1) && negb (u_secure u1)) || mask_match u2 h) by reflexivity.
   assert (Hmono : forall h, recog_ever u1 h = true -> recog_ever u2 h = true).
   { intros h H. rewrite Hever. unfold recog_ever in H. apply orb_true_iff in H as [H|H]; [rewrite H; reflexivity|].
     apply orb_true_iff. right. unfold mask_match in *. unfold u2. cbn [set_masks u_masks]. unfold iset_add.
@@ -794,23 +803,14 @@ Definition mWide : str := [42;33;42;64;121].                                 (* 
 
 Example add_refused_in_domain :
   let out := run_cmd 0 1000 orc_pw add_state hZZ (CAdd [117;50] mWide) in
-  r_ok out = false /\ r_set out = true /\ no_trace_dom (CAdd [117;50] mWide) out /\ s_users (r_st out) = s_users add_state.
+  r_ok out = false /\ r_set out = true /\ no_trace_dom out /\ s_users (r_st out) = s_users add_state.
 Proof. vm_compute. auto 6. Qed.
 
-(* outside the domain (finding F26): user set secure refused by users.setUser keeps the flag *)
-Theorem refused_no_trace_refuted :
-  exists t now o s P c,
-    let out := run_cmd t now o s P c in
-    r_ok out = false /\ r_amb out = false /\ r_set out = true /\ ~ same_db t now (s_users s) (s_users (r_st out)).
-Proof.
-  exists 0%Z, 1000%Z, orc_pw, f24_state, hAB, (CSecure (Some true)). cbv zeta.
-  split; [vm_compute; reflexivity|]. split; [vm_compute; reflexivity|]. split; [vm_compute; reflexivity|].
-  intro H.
-  assert (Hn : nget 1 (s_users (r_st (run_cmd 0 1000 orc_pw f24_state hAB (CSecure (Some true))))) =
-               Some (User nU1 [hAB; hZZ] [] true)) by (vm_compute; reflexivity).
-  destruct (same_db_nget _ _ _ _ _ _ H Hn) as [u [Hu [_ [_ [Hsec _]]]]].
-  revert Hu Hsec. vm_compute. intros Hu Hsec. inversion Hu; subst. discriminate.
-Qed.
+(* the old witness of F26: user set secure refused by users.setUser puts the flag back *)
+Example secure_refused_no_trace :
+  let out := run_cmd 0 1000 orc_pw f24_state hAB (CSecure (Some true)) in
+  r_ok out = false /\ r_amb out = false /\ r_set out = true /\ s_users (r_st out) = s_users f24_state.
+Proof. vm_compute. auto 6. Qed.
 
 Example add_accepted_example :
   r_ok (run_cmd 0 1000 orc_pw add_state hZZ (CAdd [117;50] hQ)) = true.
